@@ -1,12 +1,14 @@
 import SqlcModel.Driver.Json
 import SqlcModel.Driver.C14
 import SqlcModel.Driver.C09
+import SqlcModel.Driver.C08
 open Lean Sqlc.Drv
 
 def dispatch (prop kind : String) (inp impl : Json) : Verdict :=
   match prop with
   | "C14" => c14 kind inp impl
   | "C09" => c09 kind inp impl
+  | "C08" => c08 kind inp impl
   | _ => { compare := false, frag := "no-model" }
 
 partial def loop (prop : String) (h : IO.FS.Stream) (out : IO.FS.Stream) : IO Unit := do
